@@ -207,6 +207,23 @@ struct Harness {
           auto it = before.find(kv.first);
           if (it == before.end() || !(it->second == kv.second)) { Bad("recompaction-crash-invents-records", at + ": '" + kv.first + "'"); break; }
         }
+        // Life goes on after the crash: a session records newer deps, then a recompaction succeeds.  A
+        // temporary file left behind by the killed recompaction must not leak into it.
+        if (c.Get(string(kPath) + ".recompact") && tear < 0) {
+          bool saved = sweep_crashes;
+          sweep_crashes = false;
+          vfs::Disk c2 = c;
+          Op sess;
+          sess.recs = {{0, 8, {1}}};
+          sess.label = "session(o1@8<de>)";
+          Op rec;
+          rec.kind = Op::kRecompact;
+          rec.label = "recompact(live={o1,o2x})";
+          Apply(sess, &c2, at + " then " + sess.label);
+          Apply(rec, &c2, at + " then " + sess.label + " then " + rec.label);
+          sweep_crashes = saved;
+          ops -= 2;
+        }
       }
     }
     vfs::disk = nullptr;
